@@ -389,3 +389,249 @@ Proof.
   destruct (find_sid ch k) as [c'|] eqn:E; [exists c'; reflexivity|].
   exfalso. apply (find_sid_none _ _ E c Hc Hs).
 Qed.
+
+(* ------------------------------------------------------------------------------------------- *)
+(* instance identities, unique identities, paths (shared by the slices that address nodes)         *)
+(* ------------------------------------------------------------------------------------------- *)
+Definition iid_sid (i : iid) : sid := match i with IdNode s | IdKeys s _ | IdVal s _ => s end.
+
+Lemma inst_id_sid sch n i : inst_id sch n = Some i -> iid_sid i = d_sid n.
+Proof.
+  unfold inst_id. destruct (dup_inst sch (d_sid n)); [discriminate|].
+  destruct (kind_of sch (d_sid n)); intro H; inversion H; reflexivity.
+Qed.
+
+Lemma has_id_sid sch i x : has_id sch i x = true -> d_sid x = iid_sid i.
+Proof.
+  unfold has_id. destruct (inst_id sch x) as [j|] eqn:E; [|discriminate]. intro H.
+  apply iid_eqb_eq in H. subst j. symmetry. apply (inst_id_sid _ _ _ E).
+Qed.
+
+Lemma inst_id_some sch n : dup_inst sch (d_sid n) = false -> exists i, inst_id sch n = Some i.
+Proof.
+  unfold inst_id. intros ->. destruct (kind_of sch (d_sid n)); eexists; reflexivity.
+Qed.
+
+Lemma inst_id_none sch n : dup_inst sch (d_sid n) = true <-> inst_id sch n = None.
+Proof.
+  unfold inst_id. destruct (dup_inst sch (d_sid n)); split; intro H; try reflexivity; try discriminate.
+  destruct (kind_of sch (d_sid n)); discriminate.
+Qed.
+
+Lemma dup_inst_multi sch s : dup_inst sch s = true -> multi sch s = true.
+Proof.
+  unfold dup_inst, multi, kind_of. destruct (si_kind (sget sch s)); try discriminate; reflexivity.
+Qed.
+
+Lemma has_id_self sch n i : inst_id sch n = Some i -> has_id sch i n = true.
+Proof. unfold has_id. intros ->. apply iid_eqb_refl. Qed.
+
+Lemma has_id_inst sch i x : has_id sch i x = true <-> inst_id sch x = Some i.
+Proof.
+  unfold has_id. destruct (inst_id sch x) as [j|]; split; intro H; try discriminate.
+  - apply iid_eqb_eq in H. congruence.
+  - inversion H. apply iid_eqb_refl.
+Qed.
+
+Definition UniqL (sch : schema) (f : forest) : Prop :=
+  forall j, (length (filter (has_id sch j) f) <= 1)%nat.
+
+Fixpoint UniqN (sch : schema) (n : dnode) {struct n} : Prop :=
+  match n with
+  | DN _ _ _ _ ch =>
+      UniqL sch ch /\
+      (fix all (l : list dnode) : Prop := match l with [] => True | x :: l' => UniqN sch x /\ all l' end) ch
+  end.
+
+(* no two siblings with one identity, at every level (what validation guarantees) *)
+Definition UniqIds (sch : schema) (f : forest) : Prop := UniqL sch f /\ Forall (UniqN sch) f.
+
+Lemma UniqN_unfold sch n : UniqN sch n <-> UniqIds sch (d_ch n).
+Proof.
+  destruct n as [s v d m ch]. cbn [UniqN d_ch]. unfold UniqIds.
+  assert (HF : forall l, (fix all (l : list dnode) : Prop :=
+                            match l with [] => True | x :: l' => UniqN sch x /\ all l' end) l <-> Forall (UniqN sch) l).
+  { induction l as [|x l IH]; [split; [constructor|trivial]|]. split.
+    - intros [H1 H2]. constructor; [assumption|apply IH; assumption].
+    - intro H. inversion H; subst. split; [assumption|apply IH; assumption]. }
+  rewrite HF. reflexivity.
+Qed.
+
+Lemma same_inst_has_id sch n j y : inst_id sch n = Some j -> same_inst sch n y = has_id sch j y.
+Proof. unfold same_inst. intros ->. reflexivity. Qed.
+
+Lemma uniq_idsb_list_spec sch f : uniq_idsb_list sch f = true -> UniqL sch f.
+Proof.
+  induction f as [|n r IH]; intros H j; cbn [uniq_idsb_list filter length] in *; [lia|].
+  apply andb_true_iff in H. destruct H as [H1 H2]. apply negb_true_iff in H1. specialize (IH H2 j).
+  destruct (has_id sch j n) eqn:E; [|exact IH]. cbn [length].
+  apply has_id_inst in E.
+  assert (Hr : filter (has_id sch j) r = []).
+  { destruct (filter (has_id sch j) r) as [|y l] eqn:Ef; [reflexivity|].
+    assert (Hy : In y (filter (has_id sch j) r)) by (rewrite Ef; left; reflexivity).
+    apply filter_In in Hy. destruct Hy as [Hy1 Hy2].
+    assert (existsb (same_inst sch n) r = true); [|congruence].
+    apply existsb_exists. exists y. split; [exact Hy1|]. rewrite (same_inst_has_id sch n j y E). exact Hy2. }
+  rewrite Hr. cbn. lia.
+Qed.
+
+Lemma uniq_nodeb_spec sch n : uniq_nodeb sch n = true -> UniqN sch n.
+Proof.
+  induction n as [s v d m ch IH] using dnode_ind'. cbn [uniq_nodeb]. intro H.
+  apply andb_true_iff in H. destruct H as [H1 H2]. apply UniqN_unfold. cbn [d_ch]. split.
+  - apply uniq_idsb_list_spec, H1.
+  - rewrite forallb_forall in H2. rewrite Forall_forall in *. intros x Hx. apply (IH x Hx), H2, Hx.
+Qed.
+
+Theorem uniq_idsb_spec sch f : uniq_idsb sch f = true -> UniqIds sch f.
+Proof.
+  unfold uniq_idsb. intro H. apply andb_true_iff in H. destruct H as [H1 H2]. split.
+  - apply uniq_idsb_list_spec, H1.
+  - rewrite forallb_forall in H2. apply Forall_forall. intros x Hx. apply uniq_nodeb_spec, H2, Hx.
+Qed.
+
+(* with unique identities the node found by identity is THE node with it *)
+Lemma uniq_find sch f x j : UniqL sch f -> In x f -> has_id sch j x = true -> find_inst sch f j = Some x.
+Proof.
+  unfold find_inst. induction f as [|a r IH]; intros HU Hin Hx; [contradiction|]. cbn [find].
+  destruct (has_id sch j a) eqn:Ea.
+  - destruct Hin as [->|Hin]; [reflexivity|]. exfalso.
+    specialize (HU j). cbn [filter] in HU. rewrite Ea in HU. cbn [length] in HU.
+    assert (In x (filter (has_id sch j) r)) by (apply filter_In; split; assumption).
+    destruct (filter (has_id sch j) r); [contradiction|cbn in HU; lia].
+  - destruct Hin as [->|Hin]; [congruence|]. apply IH; [|exact Hin|exact Hx].
+    intro j'. specialize (HU j'). cbn [filter] in HU. destruct (has_id sch j' a); cbn [length] in HU; lia.
+Qed.
+
+Lemma find_inst_some sch f j x : find_inst sch f j = Some x -> In x f /\ has_id sch j x = true.
+Proof. unfold find_inst. intro H. apply find_some in H. exact H. Qed.
+
+Lemma UniqL_tail sch a f : UniqL sch (a :: f) -> UniqL sch f.
+Proof. intros H j. specialize (H j). cbn [filter] in H. destruct (has_id sch j a); cbn [length] in H; lia. Qed.
+
+Lemma UniqL_head_other sch a f j : UniqL sch (a :: f) -> has_id sch j a = true -> forall y, In y f -> has_id sch j y = false.
+Proof.
+  intros H Ha y Hy. destruct (has_id sch j y) eqn:E; [|reflexivity]. exfalso.
+  specialize (H j). cbn [filter] in H. rewrite Ha in H. cbn [length] in H.
+  assert (In y (filter (has_id sch j) f)) by (apply filter_In; split; assumption).
+  destruct (filter (has_id sch j) f); [contradiction|cbn in H; lia].
+Qed.
+
+Lemma lookup_path_cons sch f j q :
+  lookup_path sch f (j :: q) =
+  match find_inst sch f j with
+  | Some x => match q with [] => Some x | _ => lookup_path sch (d_ch x) q end
+  | None => None
+  end.
+Proof. destruct q; cbn [lookup_path]; destruct (find_inst sch f j); reflexivity. Qed.
+
+Lemma find_insert_node sch (P : dnode -> bool) f n : P n = false -> find P (insert_node sch f n) = find P f.
+Proof.
+  intro Hn. induction f as [|b r IH]; cbn [insert_node find]; [rewrite Hn; reflexivity|].
+  destruct (goes_before sch n b); cbn [find]; [rewrite Hn; reflexivity|]. rewrite IH. reflexivity.
+Qed.
+
+Lemma filter_insert_node_len sch (P : dnode -> bool) f n :
+  length (filter P (insert_node sch f n)) = length (filter P (n :: f)).
+Proof.
+  induction f as [|b r IH]; cbn [insert_node]; [reflexivity|].
+  destruct (goes_before sch n b); [reflexivity|].
+  cbn [filter] in *. destruct (P b), (P n); cbn [length] in *; lia.
+Qed.
+
+Lemma find_inst_insert_new sch f n j :
+  (forall y, In y f -> has_id sch j y = false) -> has_id sch j n = true -> find_inst sch (insert_node sch f n) j = Some n.
+Proof.
+  unfold find_inst. induction f as [|b r IH]; intros Hf Hn; cbn [insert_node find]; [rewrite Hn; reflexivity|].
+  destruct (goes_before sch n b); cbn [find]; [rewrite Hn; reflexivity|].
+  rewrite (Hf b (or_introl eq_refl)). apply IH; [|exact Hn]. intros y Hy. apply Hf. right. exact Hy.
+Qed.
+
+Lemma multi_false_dup sch k : multi sch k = false -> dup_inst sch k = false.
+Proof. intro H. destruct (dup_inst sch k) eqn:E; [|reflexivity]. apply dup_inst_multi in E. congruence. Qed.
+
+Lemma has_id_node sch k c : multi sch k = false -> has_id sch (IdNode k) c = (d_sid c =? k).
+Proof.
+  intro Hm. unfold has_id. destruct (d_sid c =? k) eqn:E.
+  - apply N.eqb_eq in E. unfold inst_id. rewrite E, (multi_false_dup sch k Hm).
+    unfold multi in Hm. destruct (kind_of sch k); try discriminate; cbn [iid_eqb]; apply N.eqb_refl.
+  - destruct (inst_id sch c) as [j|] eqn:Ej; [|reflexivity].
+    pose proof (inst_id_sid sch c j Ej) as Hs. apply N.eqb_neq in E.
+    destruct j; cbn [iid_eqb iid_sid] in *; try reflexivity. apply N.eqb_neq. congruence.
+Qed.
+
+Lemma lookup_In (sch : schema) s i : lookup sch s = Some i -> In (s, i) sch.
+Proof.
+  induction sch as [|[k e] r IH]; cbn [lookup]; [discriminate|].
+  destruct (k =? s) eqn:E; intro H; [apply N.eqb_eq in E; inversion H; subst; left; reflexivity|right; apply IH, H].
+Qed.
+
+Lemma schema_ok_entry sch s i :
+  schema_okb sch = true -> lookup sch s = Some i ->
+  (match si_kind i with KList => true | _ => match si_keys i with [] => true | _ => false end end = true) /\
+  (forall k, In k (si_keys i) -> kind_of sch k = KLeaf).
+Proof.
+  unfold schema_okb. intros H Hl. rewrite forallb_forall in H. specialize (H _ (lookup_In sch s i Hl)). cbn in H.
+  apply andb_true_iff in H. destruct H as [H _]. apply andb_true_iff in H. destruct H as [H _].
+  apply andb_true_iff in H. destruct H as [H1 H2]. split; [exact H1|].
+  intros k Hk. rewrite forallb_forall in H2. specialize (H2 k Hk).
+  unfold kind_of, sget. destruct (lookup sch k) as [ki|]; [|discriminate].
+  apply andb_true_iff in H2. destruct H2 as [_ H2]. destruct (si_kind ki); try discriminate. reflexivity.
+Qed.
+
+Lemma find_ext_eq {A} (P Q : A -> bool) l : (forall x, P x = Q x) -> find P l = find Q l.
+Proof. intro H. induction l as [|a l IH]; cbn [find]; [reflexivity|]. rewrite H, IH. reflexivity. Qed.
+
+Lemma map_eq_In {A B} (f g : A -> B) l k : map f l = map g l -> In k l -> f k = g k.
+Proof.
+  induction l as [|a l IH]; intros H Hk; [contradiction|]. cbn [map] in H. inversion H.
+  destruct Hk as [->|Hk]; [assumption|apply IH; assumption].
+Qed.
+
+Lemma find_all_false {A} (P : A -> bool) l : (forall x, In x l -> P x = false) -> find P l = None.
+Proof.
+  induction l as [|a l IH]; intro H; cbn [find]; [reflexivity|].
+  rewrite (H a (or_introl eq_refl)). apply IH. intros x Hx. apply H. right. exact Hx.
+Qed.
+
+Lemma filter_filter_len {A} (P Q : A -> bool) l : (length (filter P (filter Q l)) <= length (filter P l))%nat.
+Proof.
+  induction l as [|a l IH]; cbn [filter length]; [lia|].
+  destruct (Q a); cbn [filter]; destruct (P a); cbn [length]; lia.
+Qed.
+
+Lemma insert_node_last sch P x : (forall b, In b P -> sib_ok sch b x) -> insert_node sch P x = P ++ [x].
+Proof.
+  induction P as [|b P IH]; intro H; cbn [insert_node app]; [reflexivity|].
+  assert (Hg : goes_before sch x b = false).
+  { specialize (H b (or_introl eq_refl)). unfold goes_before, sib_ok in *.
+    destruct H as [H|[H1 [H2 H3]]].
+    - apply orb_false_iff. split; [apply N.ltb_ge; lia|]. assert (E : (d_sid x =? d_sid b) = false) by (apply N.eqb_neq; lia).
+      rewrite E. reflexivity.
+    - apply orb_false_iff. split; [apply N.ltb_ge; lia|]. rewrite H1, N.eqb_refl. cbn [andb].
+      destruct (sorted_sid sch (d_sid x)) eqn:Es; [|reflexivity]. cbn [andb]. apply is_gt_false. apply H3. rewrite H1. exact Es. }
+  rewrite Hg, IH; [reflexivity|]. intros b' Hb'. apply H. right. exact Hb'.
+Qed.
+
+Lemma StronglySorted_app_mid {A} (R : A -> A -> Prop) P x l : StronglySorted R (P ++ x :: l) -> forall b, In b P -> R b x.
+Proof.
+  induction P as [|a P IH]; intros H b Hb; [contradiction|]. cbn [app] in H. inversion H as [|? ? Hs Hall]; subst.
+  destruct Hb as [->|Hb]; [|apply (IH Hs b Hb)].
+  rewrite Forall_forall in Hall. apply Hall. apply in_or_app. right. left. reflexivity.
+Qed.
+
+Lemma CanonN_term_nil sch p n : CanonN sch p n -> is_term sch (d_sid n) = true -> d_ch n = [].
+Proof.
+  destruct n as [s v d m ch]. rewrite CanonN_unfold. intros [[i [Hl [_ [_ Ht]]]] _] H. cbn [d_sid d_ch] in *.
+  apply Ht. unfold is_term, kind_of, sget in H. rewrite Hl in H. exact H.
+Qed.
+
+Definition parents_ok (sch : schema) (src : dnode) : Prop :=
+  forall x, In x (d_ch src) -> si_parent (sget sch (d_sid x)) = Some (d_sid src).
+
+Lemma CanonN_parents_ok sch p src : CanonN sch p src -> parents_ok sch src.
+Proof.
+  destruct src as [s v d m ch]. rewrite CanonN_unfold. intros [_ [_ HF]] x Hx. cbn [d_ch d_sid] in *.
+  rewrite Forall_forall in HF. specialize (HF x Hx). destruct x as [s' v' d' m' ch']. rewrite CanonN_unfold in HF.
+  destruct HF as [[i [Hl [Hp _]]] _]. cbn [d_sid]. unfold sget. rewrite Hl. exact Hp.
+Qed.
